@@ -45,10 +45,11 @@ def client_tables():
         r2 = GeophiresXResult(str(p)).result
     heads = {
         'revenue': list(rev),
-        'extended': r1['EXTENDED ECONOMIC PROFILE'][0],
-        'sdacgt': r1['S-DAC-GT PROFILE'][0],
-        'carbon': r1[GeophiresXResult.CARBON_REVENUE_PROFILE_NAME][0],
-        'ccus_legacy': r2[GeophiresXResult.CCUS_PROFILE_LEGACY_NAME][0],
+        # a client that no longer finds these tables yields no titles here; the check then reports the lost tables
+        'extended': r1.get('EXTENDED ECONOMIC PROFILE', [[]])[0],
+        'sdacgt': r1.get('S-DAC-GT PROFILE', [[]])[0],
+        'carbon': r1.get(GeophiresXResult.CARBON_REVENUE_PROFILE_NAME, [[]])[0],
+        'ccus_legacy': r2.get(GeophiresXResult.CCUS_PROFILE_LEGACY_NAME, [[]])[0],
     }
     names = {'carbon_name': GeophiresXResult.CARBON_REVENUE_PROFILE_NAME, 'ccus_legacy_name': GeophiresXResult.CCUS_PROFILE_LEGACY_NAME,
              'carbon_price_field': GeophiresXResult._CARBON_PRICE_FIELD_NAME}
